@@ -441,19 +441,20 @@ Executors ==
   \/ \E w \in Worker : WorkerTake(w) \/ WorkerPublish(w)
   \/ \E p \in x.inflight : DataStore(p)
 
+Assign(w, t) == \E prep \in PrepChoices(w, t) : AssignOne(w, t, prep)
 Next ==
-  \/ \E w \in Worker, t \in Task : \E prep \in PrepChoices(w, t) : AssignOne(w, t, prep)
+  \/ \E w \in Worker, t \in Task : Assign(w, t)
   \/ \E w \in Worker, t \in Task : AssignCrash(w, t)
   \/ StartMigrate
   \/ \E h \in Host, cc \in Comps : Migrate(h, cc)
   \/ SkipAssign \/ EndAssign \/ Flush \/ EndWait
   \/ \E h \in Host : RecvEvent(h)
-  \/ \E p \in x.payloads : RecvPayload(p)
+  \/ \E p \in DS \X Host : RecvPayload(p)
   \/ \E h \in Host : HostDeliver(h)
   \/ \E h \in Host : DataCmd(h)
   \/ \E w \in Worker : WorkerTake(w)
   \/ \E w \in Worker : WorkerPublish(w)
-  \/ \E p \in x.inflight : DataStore(p)
+  \/ \E p \in DS \X Host \X Host : DataStore(p)
   \/ Terminated
 Spec == Init /\ [][Next]_vars /\ WF_vars(Controller) /\ WF_vars(Executors)
 
